@@ -35,7 +35,13 @@ META = {
                   "C02_rebuild_after_clears_changes_nothing: clear() (generated from data_container.py) empties both lists "
                   "of a corner container, and a re-wrapped mesh that was edited arbitrarily and had its corner containers "
                   "cleared is rebuilt with one (element, owner) record per incidence of the new faces and cells, while "
-                  "clears alone change nothing. Container independence (lists / tuples / numpy rows / append "
+                  "clears alone change nothing; C02_vertices_3d: 2-D points are padded with 0 and 3-D points kept for every raw input "
+                  "(containers, arrays, parsed files), other widths are left as they are; C02_corners_prefilled / "
+                  "C02_face_corners_regenerated: corner containers pre-filled by the importers, or stale by count, end up as the "
+                  "records of the final faces / cells; C02_edges_nodup_if_declared_distinct / C02_side_once_if_declared_distinct: "
+                  "the whole edge list is duplicate-free under the NAMED GUARD that the surviving declared edges are pairwise "
+                  "distinct, and C02_edges_nodup_refuted shows it is false without it (known finding "
+                  "edge-list/duplicate-declared). Container independence (lists / tuples / numpy rows / append "
                   "/ from_arrays) has no counterpart in the model and is only tested: kernel-checked correspondence batches "
                   "compare every route with the one model answer, and the oracle compares the routes with each other "
                   "including a script of later connectivity queries.",
@@ -43,7 +49,15 @@ META = {
                   "driver canonicalisation: index rows reported as integer lists, attribute values as integers, names as "
                   "codes); CPython list/dict/set semantics, numpy integer scalars hashing/comparing like ints; cells other "
                   "than tetrahedra/hexahedra, edges of arity != 2, attributes of elem_size > 1 / complex / string type "
-                  "and raw containers given 2-D points are outside the model.",
+                  "are outside the model. Remaining limits, stated: (1) the adjacency-only branch of _generate_cell_corners "
+                  "(cell_corners with elements but no owners: it appends the owners to _elem) is modelled as written but no "
+                  "theorem covers that state (unreachable through append/+=); (2) stale corners whose COUNT is still right "
+                  "(e.g. faces[0] = another triangle on a re-wrapped mesh without clear()) are kept: the theorems require cleared, "
+                  "correct or count-mismatching incoming corners; (3) points of width 1 or > 3 given to raw containers are left as "
+                  "they are; (4) file routes start from what the importer produced (parsing itself is C04); cell_faces is "
+                  "never pre-filled by an importer and is covered only for an empty or previously generated container; (5) "
+                  "connectivity scripts run on well-formed inputs with both switches on, container-level operations (copy, "
+                  "merge, attributes, save/load, rows handed back) on every case.",
 }
 
 HEADER = """From Coq Require Import ZArith List Bool.
@@ -244,7 +258,7 @@ def run(ctx):
                 "do, mesh.save-like clears of whole containers, an added declared edge). Non-trivial = at least one face or cell and at "
                 "least one declared edge; distinct = canonical JSON of the input")
     ctx.assumptions += ["attribute values are integers / booleans with one value per edge; names enter the model as codes",
-                        "cells are tetrahedra (4) or hexahedra (8); declared edges are pairs; raw containers receive 3-D points"]
+                        "cells are tetrahedra (4) or hexahedra (8); declared edges are pairs; coordinates are multiples of 1/4 (exact in binary64)"]
     ctx.regen(sys.modules[__name__])
     b = ctx.build_props(extra_targets=["theories/C02/Run.vo"])
     ctx.hygiene(["Lib", "C02"])
@@ -334,7 +348,7 @@ def run(ctx):
 
     # ---- verdicts
     reported = set()
-    for idx, (key, msg) in failures[:400]:
+    for idx, (key, msg) in (unexplained + [f for f in failures if ctx.known(f[1][0])])[:400]:
         if key in reported:
             continue
         reported.add(key)
